@@ -1437,7 +1437,9 @@ static void _focus_gained(TickitWindow *win, TickitWindow *child)
       _focus_gained(win->parent, win);
   }
   else
-    _request_restore(_get_root(win));
+    /* Not necessarily the root: a focus handler may have closed this window
+     * meanwhile */
+    _focus_chain_changed(win);
 
   if(!child) {
     win->is_focused = true;
